@@ -284,7 +284,7 @@ class Base:
         def prim(allow_dict=True):
             p = rng.choice(PRIMS)
             if allow_dict and p in ('string', 'bytes') and rng.chance(1, 3):
-                return f'{p} dict(D{rng.below(2)})'
+                return f'{p} dict(D{p[0].upper()}{rng.below(2)})'     # one dictionary per primitive type (C10 finding otherwise)
             return p
 
         def ftype(owner_idx, is_b_only, leaf=False):
@@ -310,7 +310,8 @@ class Base:
             nb = 1 + rng.below(3) if rng.chance(3, 4) else 0
             for j in range(na + nb):
                 t = ftype(i, j >= na, leaf=s['dict'])
-                opt = rng.chance(1, 4) and not t.startswith('[')
+                dict_struct = any(x['name'] == t and x['dict'] for x in structs)
+                opt = rng.chance(1, 4) and not t.startswith('[') and not dict_struct   # optional dictionary structs do not compile (C10 finding)
                 s['fields'].append((f'F{j}', t, opt))
             s['a'] = na
         # the root reaches every other struct of the base through its first fields
@@ -484,8 +485,8 @@ def run_c14(rng, tier, verdict, counters, samples, seed, info):
     for name, family, ta, tb in pairs:
         r = genpair.build(ta, tb)
         if not r['ok']:
-            if r['stage'] in ('stefc-run', 'own-parser') and name[:9] in ('evolution', 'diverged-', 'unrelated') and name[-1].isdigit():
-                counters['pair_rejected_by_stefc'] += 1
+            if r['stage'] in ('stefc-run', 'own-parser', 'go-build') and name[:9] in ('evolution', 'diverged-', 'unrelated') and name[-1].isdigit():
+                counters['random_pair_rejected_at_' + r['stage']] += 1      # which schemas compile is property C10
                 continue
             verdict.violation(dict(pair=name, schema_a=ta, schema_b=tb, stage=r['stage'], log=r['log'][-3000:],
                                    broken='pair harness does not build against the working tree'),
@@ -602,8 +603,8 @@ def run_c14(rng, tier, verdict, counters, samples, seed, info):
         probe = kind == 'client_ahead_probe'
         distinct.add((name, c['client'], c['server'], c['maxdict'], gc, json.dumps(c['ops'])[:200]))
         # ---------------- correspondence: the model's decision vs the code's
+        diffs = []
         if not probe:
-            diffs = []
             if mv[0] != cs_ or mv[1] != ss_:
                 diffs.append(('wire schema (own_counts vs generated <Root>WireSchema)', [mv[0], mv[1]], [cs_, ss_]))
             if me['cls'] != gc:
@@ -617,14 +618,15 @@ def run_c14(rng, tier, verdict, counters, samples, seed, info):
                 wd = [int(x) for x in wd.split(',')] if wd else None
                 if wd != me['wire_descr']:
                     diffs.append(('descriptor on the wire', me['wire_descr'], wd))
-            if diffs:
-                counters['correspondence'] += 1
-                verdict.violation(dict(base, broken='correspondence C14: coq/Net/Handshake.v (VCurrent) vs go/grpc + generated code', first_difference=diffs[0], differences=diffs[1:]),
-                                  f'correspondence: {c["id"]}: model and code disagree on {diffs[0][0]}: model {diffs[0][1]} code {diffs[0][2]}',
-                                  no_input=True)
-                continue
             if mp['cls'] != me['cls']:
                 stats['pinned_model_differs'] += 1
+
+        def report_correspondence():
+            # the property holds on this observation (or fails in a known way) but the model decides otherwise
+            counters['correspondence'] += 1
+            verdict.violation(dict(base, broken='correspondence C14: coq/Net/Handshake.v (VCurrent) vs go/grpc + generated code', first_difference=diffs[0], differences=diffs[1:]),
+                              f'correspondence: {c["id"]}: model and code disagree on {diffs[0][0]}: model {diffs[0][1]} code {diffs[0][2]}',
+                              no_input=True)
         # ---------------- the property, on the code's observations alone
         finding = None
         if o['opts'] is not None and o['opts']['maxdict'] != c['maxdict']:
@@ -665,6 +667,9 @@ def run_c14(rng, tier, verdict, counters, samples, seed, info):
             stats['dict_resets_seen'] += nflag
             if not (max(expect - 1, 1 if expect >= 2 else 0) <= nflag <= expect):
                 finding = ('dict-limit-not-in-force', f'{nflag} frames announce a dictionary reset, expected {expect} (or one less) for limit {limit}')
+        if finding is None and diffs:
+            report_correspondence()
+            continue
         if finding is None:
             counters['clean_' + kind] += 1
             if not probe and flags['evolves_cs'] and flags['closed_c'] and flags['ok_c'] and gc == 3 and kind in ('identical', 'server_ahead'):
@@ -685,7 +690,11 @@ def run_c14(rng, tier, verdict, counters, samples, seed, info):
         if matched:
             verdict.known_finding(matched, known[matched].get('line') or known[matched]['what_fails'])
             counters['known:' + matched] += 1
+            if diffs:
+                report_correspondence()
             continue
+        if diffs:
+            rep['model_disagrees_too'] = [diffs[0][0], diffs[0][1], diffs[0][2]]
         counters['oracle:' + finding[0]] += 1
         was_fixed = [k['id'] for k in fixed if k.get('matcher', {}).get('finding') == finding[0] and rel in k.get('matcher', {}).get('relation', [rel])]
         verdict.violation(dict(rep, regression_of=was_fixed), f'{finding[0]}: {c["id"]}: {finding[0]} {str(finding[1])[:160]}' + (f' (regression of {was_fixed})' if was_fixed else ''))
@@ -873,6 +882,11 @@ def run_c19(rng, tier, verdict, counters, samples, seed, info):
     rc, out = vlib.sh([gobin, '-test.run', 'TestVerifC19$', '-test.count=1', '-test.timeout=30m'],
                       env=dict(vlib.GOENV, VERIF_C19_IN=fin, VERIF_C19_OUT=fout), cwd=os.path.join(vlib.REPO, 'otelcol'), timeout=2400)
     results = [json.loads(l) for l in open(fout)] if os.path.exists(fout) else []
+    for r in results:
+        for k in ('calls', 'accepted', 'exporters', 'samples'):
+            r[k] = r.get(k) or []
+        for x in r['exporters']:
+            x['pending'] = x.get('pending') or []
     if rc != 0 or len(results) != len(cases) or 'DATA RACE' in out:
         verdict.violation(dict(broken='go harness run failed' if 'DATA RACE' not in out else 'data race reported by the Go race detector',
                                rc=rc, log=out[-4000:], got=len(results), want=len(cases),
